@@ -77,6 +77,13 @@ def proto_run(rep, prop, tier, bdir, cases, oracle, model_driver="proto", label=
                 bad = (0, "library did not become quiescent within 10 s")
             if bad is None:
                 bad = oracle(case, parsed, iout[ci])
+            if bad and "NOT-QUIESCENT" not in bad[1] and not any(spec_fails(case) for _ in range(2)):
+                # not reproduced in two more runs of the same script: an observation cut short by the quiescence
+                # detection under machine load, not a property of the code; kept in the evidence, not reported
+                rep.cov["unconfirmed_observations"] = rep.cov.get("unconfirmed_observations", 0) + 1
+                rep.replay_file("unconfirmed_%d.case" % (b0 + ci), "# %s at op %d -- not reproduced on re-run\n" % (bad[1], bad[0]) + "\n".join(case) + "\n")
+                bad = None
+                iout[ci] = run_cases(impl, [case], timeout=120)[0][0]
             if bad:
                 k, text = bad
                 small = case
@@ -91,7 +98,18 @@ def proto_run(rep, prop, tier, bdir, cases, oracle, model_driver="proto", label=
                 io = iout[ci][k] if k < len(iout[ci]) else None
                 mo = mout[ci][k] if k < len(mout[ci]) else None
                 if io != mo:
-                    diverged.append((b0 + ci, k, line, io, mo))
+                    # confirm: a real divergence is deterministic (the scripts run at quiescence)
+                    again = 0
+                    for _ in range(2):
+                        i2 = run_cases(impl, [case], timeout=120)[0][0]
+                        m2 = run_cases(model, [case], timeout=120)[0][0]
+                        if i2 != m2:
+                            again += 1
+                    if again:
+                        diverged.append((b0 + ci, k, line, io, mo))
+                    else:
+                        rep.cov["unconfirmed_observations"] = rep.cov.get("unconfirmed_observations", 0) + 1
+                        rep.replay_file("unconfirmed_div_%d.case" % (b0 + ci), "# differed once at op %d (%s), not on re-run\n# impl : %s\n# model: %s\n" % (k, line, io, mo) + "\n".join(case) + "\n")
                     break
     if diverged and not rep.violations:
         ci, k, line, io, mo = diverged[0]
